@@ -28,9 +28,9 @@ Proof.
   destruct (c <? 128) eqn:E1; [|destruct (c <? 2048) eqn:E2;
     [|destruct (c <? 65536) eqn:E3]]; cbn [app utf8_decode].
   - rewrite E1. reflexivity.
-  - repeat step_if. cbv zeta. step_if. f_equal. lia.
-  - repeat step_if. cbv zeta. step_if. f_equal. lia.
-  - repeat step_if. cbv zeta. step_if. f_equal. lia.
+  - repeat step_if. f_equal. lia.
+  - repeat step_if. f_equal. lia.
+  - repeat step_if. f_equal. lia.
 Qed.
 
 Theorem utf8_roundtrip s :
@@ -40,4 +40,722 @@ Proof.
   cbn [forallb] in H. apply andb_true_iff in H. destruct H as [Hc Hs].
   unfold utf8_encode. cbn [flat_map]. fold (utf8_encode s).
   rewrite dec_enc1 by exact Hc. rewrite IH by exact Hs. reflexivity.
+Qed.
+
+Lemma scalar_cp c : is_scalar c = true -> is_cp c = true.
+Proof. unfold is_scalar. intros H. apply andb_true_iff in H. tauto. Qed.
+
+Lemma scalar_encodable s : forallb is_scalar s = true -> encodable s = true.
+Proof.
+  unfold encodable. induction s as [|c s IH]; intros H; [reflexivity|].
+  cbn [forallb] in *. apply andb_true_iff in H. destruct H as [Hc Hs].
+  rewrite IH by exact Hs. unfold is_scalar in Hc.
+  apply andb_true_iff in Hc. destruct Hc as [_ Hc]. rewrite Hc. reflexivity.
+Qed.
+
+Lemma scalars_cps s : forallb is_scalar s = true -> forallb is_cp s = true.
+Proof.
+  induction s as [|c s IH]; intros H; [reflexivity|].
+  cbn [forallb] in *. apply andb_true_iff in H. destruct H as [Hc Hs].
+  rewrite (scalar_cp _ Hc), IH by exact Hs. reflexivity.
+Qed.
+
+(* the bytes of a Python code point are bytes *)
+Lemma enc1_bytes c : is_cp c = true -> forallb is_byte (enc1 c) = true.
+Proof.
+  unfold is_cp, enc1, is_byte. intros Hc.
+  destruct (c <? 128) eqn:E1; [|destruct (c <? 2048) eqn:E2;
+    [|destruct (c <? 65536) eqn:E3]]; cbn [forallb]; lia.
+Qed.
+
+Lemma utf8_encode_app a b :
+  utf8_encode (a ++ b) = utf8_encode a ++ utf8_encode b.
+Proof. unfold utf8_encode. apply flat_map_app. Qed.
+
+Lemma utf8_encode_cons c s : utf8_encode (c :: s) = enc1 c ++ utf8_encode s.
+Proof. reflexivity. Qed.
+
+Lemma utf8_encode_latin1 s :
+  forallb is_cp s = true -> latin1 (utf8_encode s) = true.
+Proof.
+  unfold latin1. induction s as [|c s IH]; intros H; [reflexivity|].
+  cbn [forallb] in H. apply andb_true_iff in H. destruct H as [Hc Hs].
+  rewrite utf8_encode_cons, forallb_app, enc1_bytes, IH by assumption.
+  reflexivity.
+Qed.
+
+(* utf8(iso88591(s)) == s for every str of Unicode scalar values *)
+Theorem utf8_of_iso s :
+  forallb is_scalar s = true ->
+  iso88591 (AStr s) = Ok (utf8_encode s) /\ utf8 (utf8_encode s) = s.
+Proof.
+  intros H. split.
+  - unfold iso88591. rewrite scalar_encodable by exact H. reflexivity.
+  - unfold utf8. fold (latin1 (utf8_encode s)).
+    rewrite utf8_encode_latin1 by (apply scalars_cps; exact H).
+    rewrite utf8_roundtrip by exact H. reflexivity.
+Qed.
+
+(* =========================================================== strings *)
+
+Lemma lower_app a b : lower (a ++ b) = lower a ++ lower b.
+Proof. apply map_app. Qed.
+
+Lemma lower_enc1 c : lower (enc1 c) = enc1 (ascii_lower c).
+Proof.
+  unfold ascii_lower at 1.
+  destruct ((65 <=? c) && (c <=? 90)) eqn:U.
+  - unfold enc1.
+    replace (c <? 128) with true by lia.
+    replace (c + 32 <? 128) with true by lia.
+    cbn [lower map]. unfold ascii_lower. rewrite U. reflexivity.
+  - unfold enc1.
+    destruct (c <? 128) eqn:E1; [|destruct (c <? 2048) eqn:E2;
+      [|destruct (c <? 65536) eqn:E3]]; cbn [lower map]; unfold ascii_lower.
+    + rewrite U. reflexivity.
+    + repeat match goal with
+             | |- context [if ?b then _ else _] =>
+                 replace b with false by lia
+             end. reflexivity.
+    + repeat match goal with
+             | |- context [if ?b then _ else _] =>
+                 replace b with false by lia
+             end. reflexivity.
+    + repeat match goal with
+             | |- context [if ?b then _ else _] =>
+                 replace b with false by lia
+             end. reflexivity.
+Qed.
+
+Lemma lower_utf8 s : lower (utf8_encode s) = utf8_encode (lower s).
+Proof.
+  induction s as [|c s IH]; [reflexivity|].
+  cbn [lower map]. rewrite !utf8_encode_cons, lower_app, lower_enc1.
+  fold (lower s). rewrite IH. reflexivity.
+Qed.
+
+Lemma surrogate_lower c : is_surrogate (ascii_lower c) = is_surrogate c.
+Proof.
+  unfold ascii_lower, is_surrogate.
+  destruct ((65 <=? c) && (c <=? 90)) eqn:U; lia.
+Qed.
+
+Lemma encodable_lower s : encodable (lower s) = encodable s.
+Proof.
+  unfold encodable. induction s as [|c s IH]; [reflexivity|].
+  cbn [lower map forallb]. fold (lower s). rewrite IH, surrogate_lower.
+  reflexivity.
+Qed.
+
+Lemma enc1_not_nil c : enc1 c <> [].
+Proof.
+  unfold enc1. destruct (c <? 128); [|destruct (c <? 2048);
+    [|destruct (c <? 65536)]]; discriminate.
+Qed.
+
+Lemma utf8_is_nil t : is_nil (utf8_encode t) = is_nil t.
+Proof.
+  destruct t as [|c t]; [reflexivity|].
+  rewrite utf8_encode_cons. pose proof (enc1_not_nil c).
+  destruct (enc1 c); [contradiction|reflexivity].
+Qed.
+
+Definition is_ascii (c : Z) : bool := (0 <=? c) && (c <? 128).
+
+Lemma utf8_ascii a : forallb is_ascii a = true -> utf8_encode a = a.
+Proof.
+  induction a as [|c a IH]; intros H; [reflexivity|].
+  cbn [forallb] in H. apply andb_true_iff in H. destruct H as [Hc Ha].
+  rewrite utf8_encode_cons, IH by exact Ha. unfold enc1, is_ascii in *.
+  replace (c <? 128) with true by lia. reflexivity.
+Qed.
+
+Lemma replace_char_app c r a b :
+  replace_char c r (a ++ b) = replace_char c r a ++ replace_char c r b.
+Proof. unfold replace_char. apply flat_map_app. Qed.
+
+(* replacing an ASCII character commutes with UTF-8 encoding: the bytes of
+   a non-ASCII code point are all >= 128 *)
+Lemma replace_enc1 c r x :
+  0 <= c < 128 -> utf8_encode r = r ->
+  replace_char c r (enc1 x) = utf8_encode (if x =? c then r else [x]).
+Proof.
+  intros Hc Hr. destruct (x =? c) eqn:E.
+  - apply Z.eqb_eq in E. subst x. rewrite Hr. unfold enc1.
+    replace (c <? 128) with true by lia.
+    unfold replace_char. cbn [flat_map]. rewrite Z.eqb_refl, app_nil_r.
+    reflexivity.
+  - unfold utf8_encode at 1. cbn [flat_map]. rewrite app_nil_r.
+    unfold enc1.
+    destruct (x <? 128) eqn:E1; [|destruct (x <? 2048) eqn:E2;
+      [|destruct (x <? 65536) eqn:E3]]; unfold replace_char; cbn [flat_map app].
+    + rewrite E. reflexivity.
+    + repeat match goal with
+             | |- context [if ?b then _ else _] =>
+                 replace b with false by lia
+             end. reflexivity.
+    + repeat match goal with
+             | |- context [if ?b then _ else _] =>
+                 replace b with false by lia
+             end. reflexivity.
+    + repeat match goal with
+             | |- context [if ?b then _ else _] =>
+                 replace b with false by lia
+             end. reflexivity.
+Qed.
+
+Lemma replace_char_utf8 c r s :
+  0 <= c < 128 -> utf8_encode r = r ->
+  replace_char c r (utf8_encode s) = utf8_encode (replace_char c r s).
+Proof.
+  intros Hc Hr. induction s as [|x s IH]; [reflexivity|].
+  rewrite utf8_encode_cons, replace_char_app, IH, replace_enc1 by assumption.
+  rewrite <- utf8_encode_app. reflexivity.
+Qed.
+
+Lemma escape_utf8 t : escape (utf8_encode t) = utf8_encode (escape t).
+Proof.
+  unfold escape.
+  rewrite (replace_char_utf8 92 [92; 92]) by (try lia; reflexivity).
+  rewrite (replace_char_utf8 34 [92; 34]) by (try lia; reflexivity).
+  reflexivity.
+Qed.
+
+Lemma join_cons sep p q rest :
+  join sep (p :: q :: rest) = p ++ sep ++ join sep (q :: rest).
+Proof. reflexivity. Qed.
+
+Lemma join_utf8 sep parts :
+  utf8_encode (join sep parts) = join (utf8_encode sep) (map utf8_encode parts).
+Proof.
+  induction parts as [|p rest IH]; [reflexivity|].
+  destruct rest as [|q rest]; [reflexivity|].
+  rewrite join_cons. cbn [map]. rewrite join_cons.
+  rewrite !utf8_encode_app, IH. reflexivity.
+Qed.
+
+(* ============================================= the code vs the reference *)
+
+Definition step_rel (a : state * outcome) (b : state * soutcome) : Prop :=
+  fst a = fst b /\ out_rel (snd a) (snd b).
+
+Definition rejects (e : exn) : Prop := e = TypeError \/ e = ValueError.
+
+Lemma text_str a t : text a = Some t -> a = AStr t /\ encodable t = true.
+Proof.
+  destruct a as [s| | |]; cbn [text]; try discriminate.
+  destruct (encodable s) eqn:E; [|discriminate].
+  intros H. injection H as <-. auto.
+Qed.
+
+Lemma iso_text a t : text a = Some t -> iso88591 a = Ok (utf8_encode t).
+Proof.
+  intros H. apply text_str in H. destruct H as [-> E].
+  unfold iso88591. rewrite E. reflexivity.
+Qed.
+
+Lemma iso_notext a : text a = None -> exists e, iso88591 a = Err e /\ rejects e.
+Proof.
+  unfold rejects.
+  destruct a as [s| | |]; cbn [text iso88591]; eauto.
+  destruct (encodable s); [discriminate|eauto].
+Qed.
+
+Lemma norm_text a t :
+  text a = Some t -> norm_name a = Ok (utf8_encode (lower t)).
+Proof.
+  intros H. apply text_str in H. destruct H as [-> E].
+  unfold norm_name, lower_arg, bind, iso88591.
+  rewrite encodable_lower, E. reflexivity.
+Qed.
+
+Lemma norm_notext a :
+  text a = None -> lowerable a = true ->
+  exists e, norm_name a = Err e /\ rejects e.
+Proof.
+  unfold rejects.
+  destruct a as [s| | |]; cbn [text lowerable]; try discriminate;
+    unfold norm_name, lower_arg, bind, iso88591; eauto.
+  rewrite encodable_lower. destruct (encodable s); [discriminate|eauto].
+Qed.
+
+Lemma norm_unlowerable a : lowerable a = false -> norm_name a = Err AttributeError.
+Proof. destruct a; cbn [lowerable]; try discriminate; reflexivity. Qed.
+
+Lemma key_eq k t :
+  lz_eqb (lower k) (utf8_encode (lower t)) = same_name k (utf8_encode t).
+Proof. unfold same_name. rewrite lower_utf8. reflexivity. Qed.
+
+Lemma filter_ext' {A} (f g : A -> bool) l :
+  (forall a, f a = g a) -> filter f l = filter g l.
+Proof.
+  intros H. induction l as [|a l IH]; [reflexivity|].
+  cbn [filter]. rewrite H, IH. reflexivity.
+Qed.
+
+Lemma find_first_filter n s :
+  find_first n s =
+  match filter (fun kv => lz_eqb (lower (fst kv)) n) s with
+  | [] => None
+  | kv :: _ => Some (snd kv)
+  end.
+Proof.
+  induction s as [|[k v] s IH]; [reflexivity|].
+  cbn [find_first filter fst]. destruct (lz_eqb (lower k) n); [reflexivity|exact IH].
+Qed.
+
+Lemma entries_filter t s :
+  filter (fun kv => lz_eqb (lower (fst kv)) (utf8_encode (lower t))) s =
+  entries_of (utf8_encode t) s.
+Proof. unfold entries_of. apply filter_ext'. intros a. apply key_eq. Qed.
+
+Lemma others_filter t s :
+  filter (fun kv => negb (lz_eqb (lower (fst kv)) (utf8_encode (lower t)))) s =
+  others (utf8_encode t) s.
+Proof.
+  unfold others. apply filter_ext'. intros a. rewrite key_eq. reflexivity.
+Qed.
+
+Lemma has_entries k m : has k m = negb (is_nil (entries_of k m)).
+Proof.
+  unfold has, entries_of. induction m as [|kv m IH]; [reflexivity|].
+  cbn [existsb filter]. destruct (same_name (fst kv) k); [reflexivity|exact IH].
+Qed.
+
+Lemma getitem_text s a t :
+  text a = Some t ->
+  getitem s a = match entries_of (utf8_encode t) s with
+                | [] => Err KeyError
+                | kv :: _ => Ok (snd kv)
+                end.
+Proof.
+  intros H. unfold getitem. rewrite (norm_text _ _ H). cbn [bind].
+  rewrite find_first_filter, entries_filter.
+  destruct (entries_of (utf8_encode t) s); reflexivity.
+Qed.
+
+Lemma getitem_notext s a :
+  text a = None -> lowerable a = true ->
+  exists e, getitem s a = Err e /\ rejects e.
+Proof.
+  intros H L. destruct (norm_notext _ H L) as (e & E & R).
+  exists e. unfold getitem. rewrite E. auto.
+Qed.
+
+(* ---- add_header *)
+
+Lemma all_some_cons {A} (o : option A) r :
+  all_some (o :: r) =
+  match o with
+  | Some a => match all_some r with Some r' => Some (a :: r') | None => None end
+  | None => None
+  end.
+Proof. destruct o; reflexivity. Qed.
+
+Lemma formatparam_text k t :
+  formatparam (replace_char 95 [45] (utf8_encode k)) (utf8_encode t) =
+  utf8_encode (param_text k (Some t)).
+Proof.
+  unfold formatparam, param_text.
+  rewrite utf8_is_nil, (replace_char_utf8 95 [45]) by (try lia; reflexivity).
+  destruct (is_nil t); cbn [negb]; [reflexivity|].
+  rewrite escape_utf8, !utf8_encode_app. reflexivity.
+Qed.
+
+Lemma params_parts_some ps l :
+  param_texts ps = Some l -> params_parts ps = Ok (map utf8_encode l).
+Proof.
+  revert l. unfold param_texts.
+  induction ps as [|[k val] ps IH]; intros l H.
+  - injection H as <-. reflexivity.
+  - cbn [map fst snd] in H. rewrite all_some_cons in H.
+    cbn [params_parts].
+    destruct (text (AStr k)) as [k'|] eqn:Ek; [|discriminate].
+    pose proof (text_str _ _ Ek) as [Ek' _]. injection Ek' as <-.
+    rewrite (iso_text _ _ Ek). cbn [bind].
+    destruct val as [sv|bv| |zv].
+    + destruct (text (AStr sv)) as [tv|] eqn:Ev; [|discriminate].
+      pose proof (text_str _ _ Ev) as [Ev' _]. injection Ev' as <-.
+      destruct (all_some _) as [r'|] eqn:Er; [|discriminate].
+      injection H as <-. rewrite (iso_text _ _ Ev). cbn [bind].
+      rewrite (IH _ eq_refl). cbn [bind map]. rewrite formatparam_text.
+      reflexivity.
+    + cbn [text] in H. discriminate.
+    + destruct (all_some _) as [r'|] eqn:Er; [|discriminate].
+      injection H as <-. rewrite (IH _ eq_refl). cbn [bind map].
+      unfold param_text.
+      rewrite (replace_char_utf8 95 [45]) by (try lia; reflexivity).
+      reflexivity.
+    + cbn [text] in H. discriminate.
+Qed.
+
+Lemma params_parts_none ps :
+  param_texts ps = None -> exists e, params_parts ps = Err e /\ rejects e.
+Proof.
+  unfold param_texts.
+  induction ps as [|[k val] ps IH]; intros H; [discriminate|].
+  cbn [map fst snd] in H. rewrite all_some_cons in H.
+  cbn [params_parts].
+  destruct (text (AStr k)) as [k'|] eqn:Ek.
+  2:{ destruct (iso_notext _ Ek) as (e & E & R). exists e. rewrite E. auto. }
+  rewrite (iso_text _ _ Ek). cbn [bind].
+  destruct val as [sv|bv| |zv].
+  - destruct (text (AStr sv)) as [tv|] eqn:Ev.
+    + rewrite (iso_text _ _ Ev). cbn [bind].
+      destruct (all_some _) eqn:Er; [discriminate|].
+      destruct (IH eq_refl) as (e & E & R). exists e. rewrite E. auto.
+    + destruct (iso_notext _ Ev) as (e & E & R). exists e. rewrite E. auto.
+  - exists TypeError. unfold rejects. auto.
+  - destruct (all_some _) eqn:Er; [discriminate|].
+    destruct (IH eq_refl) as (e & E & R). exists e. rewrite E. auto.
+  - exists TypeError. unfold rejects. auto.
+Qed.
+
+Lemma header_parts_some v ps l :
+  value_texts v ps = Some l -> header_parts v ps = Ok (map utf8_encode l).
+Proof.
+  destruct v as [a|items]; cbn [value_texts header_parts].
+  - destruct (match a with
+              | ANone => Some []
+              | _ => match text a with Some t => Some [t] | None => None end
+              end) as [first|] eqn:Ef; [|discriminate].
+    destruct (param_texts ps) as [more|] eqn:Ep; [|discriminate].
+    intros H. injection H as <-. rewrite (params_parts_some _ _ Ep).
+    destruct a as [sv|bv| |zv]; try (cbn [text] in Ef; discriminate).
+    + destruct (text (AStr sv)) as [t|] eqn:Et; [|discriminate].
+      injection Ef as <-. rewrite (iso_text _ _ Et). reflexivity.
+    + injection Ef as <-. reflexivity.
+  - destruct (text (AStr (render_negotiation items))) as [t|] eqn:Et;
+      [|discriminate].
+    intros H. injection H as <-. rewrite (iso_text _ _ Et). reflexivity.
+Qed.
+
+Lemma header_parts_none v ps :
+  value_texts v ps = None -> exists e, header_parts v ps = Err e /\ rejects e.
+Proof.
+  destruct v as [a|items]; cbn [value_texts header_parts].
+  - destruct a as [sv|bv| |zv].
+    + destruct (text (AStr sv)) as [t|] eqn:Et.
+      * rewrite (iso_text _ _ Et). cbn [bind].
+        destruct (param_texts ps) eqn:Ep; [discriminate|]. intros _.
+        destruct (params_parts_none _ Ep) as (e & E & R).
+        exists e. rewrite E. auto.
+      * intros _. destruct (iso_notext _ Et) as (e & E & R).
+        exists e. rewrite E. auto.
+    + intros _. exists TypeError. unfold rejects. auto.
+    + cbn [bind]. destruct (param_texts ps) eqn:Ep; [discriminate|]. intros _.
+      destruct (params_parts_none _ Ep) as (e & E & R).
+      exists e. rewrite E. auto.
+    + intros _. exists TypeError. unfold rejects. auto.
+  - destruct (text (AStr (render_negotiation items))) as [t|] eqn:Et;
+      [discriminate|]. intros _.
+    destruct (iso_notext _ Et) as (e & E & R). exists e. rewrite E. auto.
+Qed.
+
+Lemma rel_rejected s e :
+  rejects e -> step_rel (s, Raised e) (s, SRejected).
+Proof. unfold step_rel, rejects. cbn. intros [->| ->]; auto. Qed.
+
+Lemma add_header_refines s n v ps :
+  step_rel (add_header s n v ps) (spec_add_header utf8_encode s n v ps).
+Proof.
+  unfold add_header, spec_add_header.
+  destruct (value_texts v ps) as [l|] eqn:Ev.
+  - rewrite (header_parts_some _ _ _ Ev).
+    destruct l as [|p l]; cbn [map is_nil].
+    + apply rel_rejected. right. reflexivity.
+    + destruct (text n) as [t|] eqn:En.
+      * rewrite (iso_text _ _ En). split; [|reflexivity]. cbn [fst].
+        rewrite join_utf8. reflexivity.
+      * destruct (iso_notext _ En) as (e & E & R). rewrite E.
+        apply rel_rejected. exact R.
+  - destruct (header_parts_none _ _ Ev) as (e & E & R). rewrite E.
+    apply rel_rejected. exact R.
+Qed.
+
+(* ---- lookups *)
+
+Lemma mapping_get_text s a t :
+  text a = Some t ->
+  mapping_get s a = Ok (match entries_of (utf8_encode t) s with
+                        | [] => None
+                        | kv :: _ => Some (snd kv)
+                        end).
+Proof.
+  intros H. unfold mapping_get. rewrite (getitem_text _ _ _ H).
+  destruct (entries_of (utf8_encode t) s); reflexivity.
+Qed.
+
+Lemma mapping_get_notext s a :
+  text a = None -> lowerable a = true ->
+  exists e, mapping_get s a = Err e /\ rejects e.
+Proof.
+  intros H L. destruct (getitem_notext s _ H L) as (e & E & R).
+  exists e. unfold mapping_get. rewrite E. destruct R as [-> | ->]; split;
+    try reflexivity; unfold rejects; auto.
+Qed.
+
+Lemma contains_text s a t :
+  text a = Some t -> contains s a = Ok (has (utf8_encode t) s).
+Proof.
+  intros H. unfold contains. rewrite (getitem_text _ _ _ H), has_entries.
+  destruct (entries_of (utf8_encode t) s); reflexivity.
+Qed.
+
+Lemma contains_notext s a :
+  text a = None -> lowerable a = true ->
+  exists e, contains s a = Err e /\ rejects e.
+Proof.
+  intros H L. destruct (getitem_notext s _ H L) as (e & E & R).
+  exists e. unfold contains. rewrite E. destruct R as [-> | ->]; split;
+    try reflexivity; unfold rejects; auto.
+Qed.
+
+Lemma delitem_text s a t :
+  text a = Some t -> delitem s a = Ok (others (utf8_encode t) s).
+Proof.
+  intros H. unfold delitem. rewrite (norm_text _ _ H). cbn [bind].
+  rewrite others_filter. reflexivity.
+Qed.
+
+Lemma delitem_notext s a :
+  text a = None -> lowerable a = true ->
+  exists e, delitem s a = Err e /\ rejects e.
+Proof.
+  intros H L. destruct (norm_notext _ H L) as (e & E & R).
+  exists e. unfold delitem. rewrite E. auto.
+Qed.
+
+Lemma get_all_text s a t :
+  text a = Some t ->
+  get_all s a = Ok (map snd (entries_of (utf8_encode t) s)).
+Proof.
+  intros H. unfold get_all. rewrite (norm_text _ _ H). cbn [bind].
+  rewrite entries_filter. reflexivity.
+Qed.
+
+Lemma get_all_notext s a :
+  text a = None -> lowerable a = true ->
+  exists e, get_all s a = Err e /\ rejects e.
+Proof.
+  intros H L. destruct (norm_notext _ H L) as (e & E & R).
+  exists e. unfold get_all. rewrite E. auto.
+Qed.
+
+(* ---- storing one plain value *)
+
+Lemma add_header_plain s n v t tv :
+  text n = Some t -> text v = Some tv ->
+  add_header s n (HArg v) [] =
+  (s ++ [(utf8_encode t, utf8_encode tv)], ONone).
+Proof.
+  intros Hn Hv. pose proof (text_str _ _ Hv) as [-> _].
+  unfold add_header, header_parts. rewrite (iso_text _ _ Hv).
+  cbn [bind params_parts app is_nil]. rewrite (iso_text _ _ Hn). reflexivity.
+Qed.
+
+Lemma spec_add_header_notext enc s n v ps :
+  text n = None -> spec_add_header enc s n v ps = (s, SRejected).
+Proof.
+  intros H. unfold spec_add_header. rewrite H.
+  destruct (value_texts v ps) as [[|p l]|]; reflexivity.
+Qed.
+
+Lemma spec_add_header_novalue enc s n v :
+  text v = None -> spec_add_header enc s n (HArg v) [] = (s, SRejected).
+Proof.
+  intros H. unfold spec_add_header, value_texts. rewrite H.
+  destruct v; reflexivity.
+Qed.
+
+Lemma rejected_inv s r :
+  step_rel r (s, SRejected) -> exists e, r = (s, Raised e) /\ rejects e.
+Proof.
+  destruct r as [s' o]. unfold step_rel, rejects. cbn. intros [-> [-> | ->]]; eauto.
+Qed.
+
+Lemma add_header_bad_name s n v ps :
+  text n = None -> exists e, add_header s n v ps = (s, Raised e) /\ rejects e.
+Proof.
+  intros H. apply rejected_inv.
+  rewrite <- (spec_add_header_notext utf8_encode s n v ps H).
+  apply add_header_refines.
+Qed.
+
+Lemma add_header_bad_value s n v :
+  text v = None ->
+  exists e, add_header s n (HArg v) [] = (s, Raised e) /\ rejects e.
+Proof.
+  intros H. apply rejected_inv.
+  rewrite <- (spec_add_header_novalue utf8_encode s n v H).
+  apply add_header_refines.
+Qed.
+
+Lemma spec_add_header_plain enc s n v t tv :
+  text n = Some t -> text v = Some tv ->
+  spec_add_header enc s n (HArg v) [] = (s ++ [(enc t, enc tv)], SRet ONone).
+Proof.
+  intros Hn Hv. pose proof (text_str _ _ Hv) as [-> _].
+  unfold spec_add_header, value_texts. rewrite Hv, Hn. reflexivity.
+Qed.
+
+(* ---- constructor *)
+
+Definition encp (kv : str * str) : str * str :=
+  (utf8_encode (fst kv), utf8_encode (snd kv)).
+
+Lemma iso_pairs_some l ps :
+  pair_texts l = Some ps -> iso_pairs l = Ok (map encp ps).
+Proof.
+  revert ps. induction l as [|[k v] l IH]; intros ps H.
+  - injection H as <-. reflexivity.
+  - cbn [pair_texts] in H. cbn [iso_pairs].
+    destruct (text k) as [k'|] eqn:Ek; [|discriminate].
+    destruct (text v) as [v'|] eqn:Ev; [|discriminate].
+    destruct (pair_texts l) as [r'|] eqn:Er; [|discriminate].
+    injection H as <-. rewrite (iso_text _ _ Ek), (iso_text _ _ Ev).
+    cbn [bind]. rewrite (IH _ eq_refl). reflexivity.
+Qed.
+
+Lemma iso_pairs_none l :
+  pair_texts l = None -> exists e, iso_pairs l = Err e /\ rejects e.
+Proof.
+  induction l as [|[k v] l IH]; intros H; [discriminate|].
+  cbn [pair_texts] in H. cbn [iso_pairs].
+  destruct (text k) as [k'|] eqn:Ek.
+  2:{ destruct (iso_notext _ Ek) as (e & E & R). exists e. rewrite E. auto. }
+  rewrite (iso_text _ _ Ek). cbn [bind].
+  destruct (text v) as [v'|] eqn:Ev.
+  2:{ destruct (iso_notext _ Ev) as (e & E & R). exists e. rewrite E. auto. }
+  rewrite (iso_text _ _ Ev). cbn [bind].
+  destruct (pair_texts l) as [r'|] eqn:Er; [discriminate|].
+  destruct (IH eq_refl) as (e & E & R). exists e. rewrite E. auto.
+Qed.
+
+Lemma with_name_notext m n f : text n = None -> with_name m n f = (m, SRejected).
+Proof. intros H. unfold with_name. rewrite H. reflexivity. Qed.
+Lemma with_name_text m n f t : text n = Some t -> with_name m n f = f t.
+Proof. intros H. unfold with_name. rewrite H. reflexivity. Qed.
+
+Ltac reject_with L :=
+  let e := fresh "e" in let E := fresh "E" in let R := fresh "R" in
+  destruct L as (e & E & R); rewrite E; cbn [of_res];
+  apply rel_rejected; exact R.
+
+(* every operation, one step: the code does what the reference says *)
+Theorem step_refines s o :
+  benign o = true -> step_rel (step s o) (spec_step utf8_encode s o).
+Proof.
+  intros B. destruct o as [c|c|n v|n v ps|n v|n|n v|n|n|n|n| | | |];
+    cbn [step spec_step benign] in *.
+  - (* OInit *)
+    destruct c as [|l|l|truthy]; cbn [init_strict spec_init of_res].
+    + split; reflexivity.
+    + destruct (pair_texts l) as [ps|] eqn:E.
+      * rewrite (iso_pairs_some _ _ E). split; reflexivity.
+      * reject_with (iso_pairs_none _ E).
+    + destruct (pair_texts l) as [ps|] eqn:E.
+      * rewrite (iso_pairs_some _ _ E). split; reflexivity.
+      * reject_with (iso_pairs_none _ E).
+    + destruct truthy; [apply rel_rejected; left; reflexivity|split; reflexivity].
+  - (* OInitRaw *)
+    destruct c as [|l|l|truthy]; cbn [init_raw spec_init_raw of_res];
+      try (split; reflexivity).
+    destruct truthy; [apply rel_rejected; left; reflexivity|split; reflexivity].
+  - (* OAdd *)
+    unfold add. destruct (text n) as [t|] eqn:En.
+    + rewrite (with_name_text _ _ _ _ En).
+      pose proof (text_str _ _ En) as [Hn _]. subst n.
+      cbn [not_set_cookie lower_arg bind]. unfold same_name.
+      change (lower s_set_cookie) with s_set_cookie.
+      destruct (lz_eqb (lower t) s_set_cookie); cbn [negb andb].
+      * apply add_header_refines.
+      * rewrite (contains_text _ _ _ En).
+        destruct (has (utf8_encode t) s).
+        -- split; reflexivity.
+        -- apply add_header_refines.
+    + rewrite (with_name_notext _ _ _ En).
+      assert (Hc : step_rel
+                (match contains s n with
+                 | Ok true => (s, Raised KeyError)
+                 | Ok false => add_header s n (HArg v) []
+                 | Err e => (s, Raised e)
+                 end) (s, SRejected)).
+      { destruct (contains_notext s _ En B) as (e & E & R). rewrite E.
+        apply rel_rejected. exact R. }
+      assert (Ha : step_rel (add_header s n (HArg v) []) (s, SRejected)).
+      { destruct (add_header_bad_name s n (HArg v) [] En) as (e & E & R).
+        rewrite E. apply rel_rejected. exact R. }
+      destruct n as [sn|bn| |zn]; try discriminate;
+        cbn [not_set_cookie lower_arg bind].
+      * destruct (negb (lz_eqb (lower sn) s_set_cookie)); assumption.
+      * exact Hc.
+  - (* OAddHeader *) apply add_header_refines.
+  - (* OSet *)
+    apply andb_true_iff in B. destruct B as [L B]. unfold setitem.
+    destruct (text n) as [t|] eqn:En.
+    + rewrite (with_name_text _ _ _ _ En).
+      unfold text_ok in B. rewrite En in B. cbn [negb orb] in B.
+      destruct (text v) as [tv|] eqn:Ev; [|discriminate].
+      rewrite (delitem_text _ _ _ En), (add_header_plain _ _ _ _ _ En Ev).
+      split; reflexivity.
+    + rewrite (with_name_notext _ _ _ En).
+      reject_with (delitem_notext s _ En L).
+  - (* ODel *)
+    destruct (text n) as [t|] eqn:En.
+    + rewrite (with_name_text _ _ _ _ En), (delitem_text _ _ _ En).
+      split; reflexivity.
+    + rewrite (with_name_notext _ _ _ En).
+      reject_with (delitem_notext s _ En B).
+  - (* OSetdefault *)
+    unfold setdefault. destruct (text n) as [t|] eqn:En.
+    + rewrite (with_name_text _ _ _ _ En), (mapping_get_text _ _ _ En).
+      destruct (entries_of (utf8_encode t) s) as [|kv r]; [|split; reflexivity].
+      destruct (text v) as [tv|] eqn:Ev.
+      * rewrite (add_header_plain _ _ _ _ _ En Ev).
+        pose proof (text_str _ _ Ev) as [-> _]. split; reflexivity.
+      * destruct (add_header_bad_value s n v Ev) as (e & E & R). rewrite E.
+        apply rel_rejected. exact R.
+    + rewrite (with_name_notext _ _ _ En).
+      reject_with (mapping_get_notext s _ En B).
+  - (* OGet *)
+    destruct (text n) as [t|] eqn:En.
+    + rewrite (with_name_text _ _ _ _ En), (mapping_get_text _ _ _ En).
+      cbn [of_res]. destruct (entries_of (utf8_encode t) s); split; reflexivity.
+    + rewrite (with_name_notext _ _ _ En).
+      reject_with (mapping_get_notext s _ En B).
+  - (* OGetAll *)
+    destruct (text n) as [t|] eqn:En.
+    + rewrite (with_name_text _ _ _ _ En), (get_all_text _ _ _ En).
+      split; reflexivity.
+    + rewrite (with_name_notext _ _ _ En).
+      reject_with (get_all_notext s _ En B).
+  - (* OContains *)
+    destruct (text n) as [t|] eqn:En.
+    + rewrite (with_name_text _ _ _ _ En), (contains_text _ _ _ En).
+      split; reflexivity.
+    + rewrite (with_name_notext _ _ _ En).
+      reject_with (contains_notext s _ En B).
+  - (* OGetItem *)
+    destruct (text n) as [t|] eqn:En.
+    + rewrite (with_name_text _ _ _ _ En), (getitem_text _ _ _ En).
+      destruct (entries_of (utf8_encode t) s); split; reflexivity.
+    + rewrite (with_name_notext _ _ _ En).
+      reject_with (getitem_notext s _ En B).
+  - split; reflexivity.
+  - split; reflexivity.
+  - split; reflexivity.
+  - split; reflexivity.
+Qed.
+
+(* every history: states and outcomes after every step *)
+Theorem run_refines ops : forall s,
+  forallb benign ops = true ->
+  Forall2 step_rel (run s ops) (srun utf8_encode s ops).
+Proof.
+  induction ops as [|o ops IH]; intros s B; [constructor|].
+  cbn [forallb] in B. apply andb_true_iff in B. destruct B as [Bo Bs].
+  cbn [run srun]. pose proof (step_refines s o Bo) as R.
+  constructor; [exact R|]. destruct R as [Rs _]. rewrite Rs.
+  apply IH. exact Bs.
 Qed.
